@@ -117,6 +117,10 @@ def catalogue(M, cls, rng):
         out.append(("unknown-centre", ["set_atom_stereo", ["Tetrahedral", [X, *lig, None], 1]]))
         out.append(("unknown-centre", ["set_atom_stereo", ["Octahedral", [X, *(P + [Y] * 6)[:6]], -1]]))
         out.append(("unknown-atom", ["delete_atom_stereo", X]))
+        # the placeholder None in the centre position is not an atom either
+        out.append(("unknown-centre", ["set_atom_stereo", ["Tetrahedral", [None, *lig, Y], 1]]))
+        if p is not None:
+            out.append(("unknown-centre", ["set_bond_stereo", ["PlanarBond", [Y, Y + 1, None, p, Y + 2, None], 0]]))
         for a, b in absent_pairs:
             out.append(("unknown-centre", ["set_bond_stereo", ["PlanarBond", [None, Y, a, b, Y, None], 0]]))
             out.append(("unknown-centre", ["set_bond_stereo", ["AtropBond", [Y, None, b, a, None, Y], 1]]))
@@ -136,6 +140,12 @@ def catalogue(M, cls, rng):
                 if frozenset((a, b)) not in M["bchange"]:
                     out.append(("unknown-bond", ["delete_bond_stereo_change", [a, b], None]))
                     out.append(("unknown-bond", ["delete_bond_stereo_change", [a, b], "FLEETING"]))
+            out.append(("unknown-centre", ["set_atom_stereo_change", {"broken": t(None)}]))
+            if p is not None:
+                out.append(("two-centres", ["set_atom_stereo_change", {"broken": t(p), "formed": t(None, -1)}]))
+                out.append(("two-centres", ["set_atom_stereo_change", {"fleeting": t(None), "formed": t(p), "broken": t(p)}]))
+            if bond:
+                out.append(("two-centres", ["set_bond_stereo_change", {"broken": ["PlanarBond", [None, Y, bond[0], bond[1], Y, None], 0], "formed": ["PlanarBond", [Y, Y + 1, None, bond[1], Y + 2, None], 0]}]))
             if q is not None:
                 out.append(("two-centres", ["set_atom_stereo_change", {"broken": t(p), "formed": t(q, -1)}]))
                 out.append(("two-centres", ["set_atom_stereo_change", {"fleeting": t(q), "formed": t(p)}]))
